@@ -112,6 +112,7 @@ func c02cases(tier string) []c02case {
 		for _, hi := range []int{0, 3, 5} {
 			cs = append(cs, c02case{shape: "bnd", n: n, scen: "free", hist: c02hists[hi]})
 			cs = append(cs, c02case{shape: "subfork", n: n, scen: "free", hist: c02hists[hi]})
+			cs = append(cs, c02case{shape: "bndskip", n: n, scen: "free", hist: c02hists[hi]})
 		}
 	}
 	// enforced schedules
@@ -216,6 +217,28 @@ func c02graph(shape string, n int) *eng.Graph {
 			ex := g.Add("endEvent", fmt.Sprintf("ex%d", i), "")
 			g.Connect(b, x, nil)
 			g.Connect(x, ex, nil)
+		}
+	case "bndskip":
+		// an activity with a boundary event on a branch that is NEVER TAKEN: s_i -> X_i ; X_i -default-> T_i -> e_i ;
+		// X_i -[never == 1]-> G_i (boundary event B_i -> bx_i) -> eg_i. Nothing ever reaches G_i; what was prepared for
+		// it (its boundary listeners) is no token of the instance
+		for i := 0; i < n; i++ {
+			x := g.Add("exclusiveGateway", fmt.Sprintf("X%d", i), "")
+			t := g.Add("task", fmt.Sprintf("T%d", i), "")
+			e := g.Add("endEvent", fmt.Sprintf("e%d", i), "")
+			gd := g.Add("task", fmt.Sprintf("G%d", i), "")
+			eg := g.Add("endEvent", fmt.Sprintf("eg%d", i), "")
+			g.Connect(starts[i], x, nil)
+			g.Connect(x, gd, &eng.Cond{Op: "eq", Var: "never", K: 1})
+			x.Default = g.Connect(x, t, nil).ID
+			g.Connect(t, e, nil)
+			g.Connect(gd, eg, nil)
+			b := g.Add("boundaryEvent", fmt.Sprintf("B%d", i), "")
+			b.Attached = gd.ID
+			b.Interrupting = i%2 == 0
+			b.Defs = []eng.EventDef{{Kind: "signal", Name: fmt.Sprintf("sg%d", i)}}
+			bx := g.Add("endEvent", fmt.Sprintf("bx%d", i), "")
+			g.Connect(b, bx, nil)
 		}
 	case "subfork":
 		// an embedded sub-process whose content forks WITHOUT joining: both inner branches run into the ONE inner end
